@@ -174,6 +174,19 @@ def interp_obs(problem, grid_sol, u_full, grid_obs):
     return np.asarray(InterpolatedUnivariateSpline(grid_sol, u_full, k=3)(grid_obs), dtype=float)
 
 
+def finite_guard(ctx, name, desc, what, arr, inputs_finite=True):
+    """non-finite values are handled deliberately: never sent to the model.  If the implementation produced a non-finite
+    `what` from finite, valid inputs that is an oracle failure; if the inputs themselves were non-finite it is noted."""
+    a = np.asarray(arr, dtype=float)
+    if np.all(np.isfinite(a)):
+        return True
+    if inputs_finite:
+        ctx.fail(f"{name}:{what}:non-finite", desc, f"finite {what}", [float(v) for v in a.ravel()[:6]], f"{what} contains NaN/inf although the stated inputs are finite")
+    else:
+        ctx.note(f"{name}: {what} non-finite because an input (phantom / exact solution leaf) is non-finite at {desc}; skipped")
+    return False
+
+
 def vrel(a, b, tol):
     """scale-free closeness of two vectors (extreme scales: no absolute floor)"""
     a, b = A1(a), A1(b)
@@ -498,6 +511,9 @@ def check_logd(ctx, B, name, tp, desc, cov_stated, fwd_model, rs, npts=2, scale=
     n = tp.model.domain_dim
     data = A1(tp.data)
     m = data.size
+    xs_ok = tp.exactSolution is None or bool(np.all(np.isfinite(A1(tp.exactSolution))))
+    if not finite_guard(ctx, name, desc, "data", data, inputs_finite=xs_ok):
+        return
     cov = np.broadcast_to(np.asarray(cov_stated, dtype=float).ravel(), (m,)) if np.size(cov_stated) > 1 else np.full(m, float(np.asarray(cov_stated).ravel()[0]))
     if not np.all(np.isfinite(cov)) or np.any(cov <= 0):
         return
@@ -612,6 +628,39 @@ def doc_psf(name, size, param, ndim=1):
     return w / w.sum()
 
 
+def doc_defocus(size, R, ndim, centre):
+    """Documented out-of-focus PSF of radius R: the uniform CLOSED disc {p : |p - centre|^2 <= R^2} (a pixel at distance
+    exactly R belongs to a blur of radius R), normalised.  Written independently of the code; `centre` is a parameter
+    because the code centres the disc one entry off the kernel centre (known finding ...:PSF:defocus:off-centre)."""
+    if R is None:
+        R = 10
+    if R == 0:
+        return None
+    i = np.arange(size, dtype=float)
+    if ndim == 1:
+        d2 = (i - centre) ** 2
+    else:
+        d2 = np.add.outer((i - centre) ** 2, (i - centre) ** 2)
+    m = (d2 <= float(R) ** 2).astype(float)
+    return m / m.sum() if m.sum() > 0 else None
+
+
+def defocus_oracle(ctx, name, desc, Pimpl, size, R, ndim):
+    """(disc)  the PSF is a uniform closed disc of radius R about SOME integer centre, normalised;
+       (centre) ... about the entry size//2 on which the convolution centres the kernel (fails on the unchanged tree: known finding)"""
+    Pimpl = np.asarray(Pimpl, dtype=float)
+    def same(Q):
+        return Q is not None and Q.shape == Pimpl.shape and np.allclose(Q, Pimpl, rtol=1e-12, atol=1e-15)
+    cands = [c for c in range(-1, size + 1)]
+    if not any(same(doc_defocus(size, R, ndim, c)) for c in cands):
+        ref = doc_defocus(size, R, ndim, size // 2 - 1)
+        ctx.fail(f"{name}:PSF:defocus:disc", desc, "uniform closed disc |p-c|^2 <= PSF_param^2, normalised" + ("" if ref is None else f" ({int(round(1 / ref.max()))} pixels)"),
+                 f"{int(np.count_nonzero(Pimpl))} pixels, sum {float(Pimpl.sum())}", "the Defocus PSF is not the uniform disc of radius PSF_param (boundary pixels / weights / normalisation)")
+    elif not same(doc_defocus(size, R, ndim, size // 2)):
+        ctx.fail(f"{name}:PSF:defocus:off-centre", desc, f"disc centred on entry {size // 2} (the kernel centre of the convolution)", "centred one entry earlier",
+                 "the Defocus PSF is centred one sample before the kernel centre: the forward model is the defocus blur combined with a one-sample shift")
+
+
 def doc_legacy_kernel(name, dim, param):
     """documented legacy kernels in wrapped order (h[0] = centre), functions of the periodic distance min(k, n-k)/n"""
     nm = name.lower()
@@ -660,8 +709,10 @@ def psf1_leaf(T, dim, psf):
     P = doc_psf(name, n, param, 1)
     if P is not None:
         return P
-    f = {"defocus": T._DefocusPSF_1D}[name.lower()]
-    return np.asarray(f(n, param)[0], dtype=float)
+    if name.lower() != "defocus":
+        raise KeyError(name)
+    T._DefocusPSF_1D(n, param)                                   # (raises for PSF_param = 0: known finding)
+    return doc_defocus(n, param, 1, n // 2 - 1)                  # documented disc at the centre the code uses
 
 
 def gen_phantom1(rng, dim):
@@ -697,7 +748,8 @@ def case_deconv1d(ctx, cuqi, T, B1, B2, cfg, sid):
     desc = {"problem": "Deconvolution1D", **{k: (v if not isinstance(v, tuple) else list(v)) for k, v in cfg.items() if k != "prior"}, "prior": cfg["prior"][0]}
     kw = dict(dim=dim, BC=bc, noise_type=ntype, noise_std=nstd, prior=cfg["prior"][1])
     dt = cfg.get("dtype", "float64")
-    kw["PSF"] = np.array(psf[1]).astype(dt if dt != "bool" else "int64") if psf[0] == "arr" else psf[1]
+    psf_dt = "int64" if (dt == "bool" or (legacy and dt in ("uint8", "int8", "uint16"))) else dt
+    kw["PSF"] = np.array(psf[1]).astype(psf_dt) if psf[0] == "arr" else psf[1]
     if psf[0] == "name":
         kw["PSF_param"], kw["PSF_size"] = psf[2], psf[3]
     kw["phantom"] = np.array(ph[1]).astype(dt) if ph[0] == "arr" else ph[1]
@@ -727,6 +779,10 @@ def case_deconv1d(ctx, cuqi, T, B1, B2, cfg, sid):
                       else np.asarray(T._getExactSolution(dim, ph[1], ph[2]), dtype=float))
     except Exception:
         x_leaf = None
+    if x_leaf is not None and len(x_leaf) == dim and not np.all(np.isfinite(x_leaf)):
+        ctx.case("deconv1d-nan-phantom", desc, nontrivial=False)
+        ctx.note(f"phantom leaf has non-finite entries (degenerate size), skipped: dim={dim} phantom={ph}")
+        return
     if legacy:
         return case_legacy(ctx, B1, B2, cfg, desc, tp, err, S, x_leaf, sid)
     try:
@@ -751,6 +807,15 @@ def case_deconv1d(ctx, cuqi, T, B1, B2, cfg, sid):
             ctx.fail(f"tie:Deconvolution1D:refusal:{what}", desc, f"an error for an undocumented {what} option", "constructed",
                      f"the constructor accepts a {what} option that is not one of the documented names / shapes")
         return
+    if psf[0] == "name" and psf[1].lower() == "defocus":
+        n_ = psf[3] if psf[3] is not None else dim
+        with quiet():
+            try:
+                Pimpl = np.asarray(T._DefocusPSF_1D(n_, psf[2])[0], dtype=float)
+            except Exception:
+                Pimpl = None
+        if Pimpl is not None:
+            defocus_oracle(ctx, "Deconvolution1D", desc, Pimpl, n_, psf[2], 1)
     if psf[0] == "name" and psf[1].lower() in ("gauss", "moffat"):
         with quiet():
             try:
@@ -840,7 +905,8 @@ def case_deconv1d(ctx, cuqi, T, B1, B2, cfg, sid):
         B2.add([f"cap {ntype}"], lambda o: cb_info(o))
         # --- noise
         xi = S.calls[0][1].ravel() if (len(S.calls) == 1 and S.calls[0][1].size == dim) else np.ones(dim)
-        B2.add([f"noise {ntype} {q(nstd)} {qv(ye)} {qv(xi)}"], lambda o: cb_noise(o, ye, xi))
+        if finite_guard(ctx, "Deconvolution1D", desc, "exactData", ye):
+            B2.add([f"noise {ntype} {q(nstd)} {qv(ye)} {qv(xi)}"], lambda o: cb_noise(o, ye, xi))
         # --- likelihood covariance, logd, components
         cov_stated = (np.full(dim, nstd ** 2) if not scaled else (ye * nstd) ** 2)
         cov_impl = np.asarray(tp.likelihood.distribution.cov, dtype=float).ravel()
@@ -1023,8 +1089,11 @@ def case_deconv2d(ctx, cuqi, T, B1, B2, cfg, sid):
             try:
                 Pimpl = np.asarray(f(psf[3], psf[2])[0], dtype=float)
                 P = doc_psf(psf[1], psf[3], psf[2], 2)
-                if P is None:
-                    P = Pimpl                      # Defocus: leaf
+                if P is None:                      # Defocus: documented closed disc at the centre the code uses
+                    P = doc_defocus(psf[3], psf[2], 2, psf[3] // 2 - 1)
+                    defocus_oracle(ctx, "Deconvolution2D", desc, Pimpl, psf[3], psf[2], 2)
+                    if P is None:
+                        P = Pimpl
                 else:
                     kpsf = f"Deconvolution2D:PSF:{psf[1].lower()}"
                     psf_structure_oracle(ctx, kpsf + ":structure", desc, Pimpl)
@@ -1043,6 +1112,10 @@ def case_deconv2d(ctx, cuqi, T, B1, B2, cfg, sid):
     n2 = dim * dim
     # a float32 image makes np.pad/fftconvolve work in single precision (observation in docs): compare at that precision
     ytol = 1e-6 if cfg.get("dtype") == "float32" else 1e-9
+    if not (np.all(np.isfinite(x_leaf)) and np.all(np.isfinite(P))):
+        ctx.case("deconv2d-nonfinite-leaf", desc, nontrivial=False)
+        ctx.note(f"2-D phantom / PSF leaf non-finite, skipped: {desc}")
+        return
     lines = [f"dc2m {bc} {dim} {qm(P)}", f"dc2 {bc} {dim} {qm(P)} {qv(x_leaf)}"]
     yref_holder = [np.zeros(0)]
 
@@ -1101,7 +1174,8 @@ def case_deconv2d(ctx, cuqi, T, B1, B2, cfg, sid):
                                            ctx.fail("tie:Deconvolution2D:infoString", desc, want, tp.infoString, "infoString does not state the noise type and level used"))
                if tp.infoString != f"Noise type: Additive {o[0]} with std: {nstd}" else None)
         xi = S.calls[0][1].ravel() if (len(S.calls) == 1 and S.calls[0][1].size == n2) else np.ones(n2)
-        B2.add([f"noise {ntype} {q(nstd)} {qv(ye)} {qv(xi)}"], lambda o: cb_noise(o, ye))
+        if finite_guard(ctx, "Deconvolution2D", desc, "exactData", ye, inputs_finite=bool(np.all(np.isfinite(x_leaf)))):
+            B2.add([f"noise {ntype} {q(nstd)} {qv(ye)} {qv(xi)}"], lambda o: cb_noise(o, ye))
         cov_stated = (np.full(n2, nstd ** 2) if not scaled else (ye * nstd) ** 2)
         cov_impl = np.asarray(tp.likelihood.distribution.cov, dtype=float).ravel()
         if cov_impl.size not in (1, n2) or not vrel(np.broadcast_to(cov_impl, (n2,)), cov_stated, 1e-12):
@@ -1191,7 +1265,8 @@ def snr_checks(ctx, B2, name, tp, desc, S, snr, sid, fwd_model, logd_scale=1.0, 
                 ctx.fail("tie:" + key, desc, list((ye + sigma_stated * xi)[:6]), list(data[:6]), "data are not exactData + (||exactData||/SNR) * normal draw")
         stated_noise_oracle(ctx, key, desc, data, ye, np.full(ye.size, sigma_stated), S, "normal")
 
-    if math.isfinite(sig_used):
+    xs_ok_ = tp.exactSolution is None or bool(np.all(np.isfinite(A1(tp.exactSolution))))
+    if math.isfinite(sig_used) and finite_guard(ctx, name, desc, "exactData", ye, inputs_finite=xs_ok_):
         B2.add([f"snr {q(sig_used)} {q(snr)} 1/1000000000 {qv(ye)} {qv(xi)}"], cb)
     rs = np.random.RandomState(sid + 7)
     check_logd(ctx, B2, name, tp, desc, np.array([sigma_stated ** 2]), fwd_model, rs, npts=2, scale=logd_scale, positive=positive)
@@ -1240,6 +1315,9 @@ def case_poisson(ctx, cuqi, B1, B2, cfg, sid):
     kappas = [np.round(rs.rand(dim) * 8 + 1) / 2.0 for _ in range(2)]      # positive dyadic conductivities
     xs = A1(tp.exactSolution)
     tests = [("exact", xs)] + [("kappa", k) for k in kappas]
+    if not np.all(np.isfinite(xs)):
+        ctx.note(f"Poisson1D exactSolution leaf non-finite (field geometry leaves nodes unassigned?), exact-data comparison skipped: {desc}")
+        tests[0] = ("exact-nonfinite", kappas[0])
     lines = [f"poisson {N} {q(dxF)} {qv(k)} {qv(rhs)} {','.join(str(i) for i in obs_idx) if obs_idx else '_'}" for _, k in tests]
     obs_s_ = ','.join(str(i) for i in obs_idx) if obs_idx else '_'
     if field[0] == "none":
@@ -1305,7 +1383,7 @@ def case_poisson(ctx, cuqi, B1, B2, cfg, sid):
                 ctx.fail("Poisson1D:operator:wrong", d, list(u[:6]), list(got[:6]), "forward model is not the (observed) solution of the documented discretised Poisson problem")
         # exact data
         ye = A1(tp.exactData)
-        if sols[0] is not None and (ye.shape != sols[0].shape or not vclose(ye, sols[0], 1e-8)):
+        if tests[0][0] == "exact" and sols[0] is not None and (ye.shape != sols[0].shape or not vclose(ye, sols[0], 1e-8)):
             ctx.disagree("tie:Poisson1D:exactData", desc, list(sols[0][:6]), list(ye[:6]))
             with quiet():
                 yf = A1(tp.model.forward(tp.exactSolution, is_par=False))
@@ -1359,6 +1437,9 @@ def case_heat(ctx, cuqi, B1, B2, cfg, sid):
     rs = np.random.RandomState(sid + 3)
     xs = A1(tp.exactSolution)
     tests = [("exact", xs)] + [("ic", np.round(rs.randn(N) * 4) / 2.0) for _ in range(2)]
+    if not np.all(np.isfinite(xs)) or xs.size != N:
+        ctx.note(f"Heat1D exactSolution leaf non-finite (field geometry leaves nodes unassigned?), exact-data comparison skipped: {desc}")
+        tests[0] = ("exact-nonfinite", tests[1][1])
     obs_s = ','.join(str(i) for i in obs_idx) if obs_idx else '_'
     k_impl = len(tp.model.pde.time_steps) - 1
     dtF = (Fraction(mt) / k_impl) if k_impl > 0 else Fraction(0)
@@ -1427,7 +1508,7 @@ def case_heat(ctx, cuqi, B1, B2, cfg, sid):
                 ctx.fail("tie:Heat1D:forward", d, list(u[:6]), list(got[:6]), "forward model is not the (observed) forward-Euler solution of the heat equation at max_time")
                 ctx.fail("Heat1D:operator:wrong", d, list(u[:6]), list(got[:6]), "forward model is not the (observed) forward-Euler solution of the heat equation at max_time")
         ye = A1(tp.exactData)
-        if sols and sols[0] is not None and (ye.shape != sols[0].shape or not vclose(ye, sols[0], 1e-8)):
+        if tests[0][0] == "exact" and sols and sols[0] is not None and (ye.shape != sols[0].shape or not vclose(ye, sols[0], 1e-8)):
             ctx.disagree("tie:Heat1D:exactData", desc, list(sols[0][:6]), list(ye[:6]))
             with quiet():
                 yf = A1(tp.model.forward(tp.exactSolution, is_par=False))
@@ -1611,6 +1692,7 @@ def run(ctx):
                         "a default (unset) geometry is compatible with any geometry of the same parameter dimension (the code's own policy in Posterior.geometry)",
                         "sigma = ||exactData||/SNR is the stated SNR convention of Poisson1D/Heat1D/Abel1D"]
     B1, B2 = Batch(), Batch()
+    from cuqi.testproblem import Deconvolution1D as _D1n
     sid = [1000 * (ctx.seed + 1)]
 
     def nid():
@@ -1698,19 +1780,42 @@ def run(ctx):
                                              exactSolution=(None if fld[0] != "none" else [float((3 * i) % 5 - 1) for i in range(dim_)])), nid())
 
     # ---- G1: non-float64 user arrays (phantom / PSF / exactSolution / data) must give the float64 results
-    for dt in ("int64", "int32", "float32", "bool"):
+    for dt in ("int64", "int32", "float32", "bool", "uint8", "int8", "float16", "uint16"):
         vals = [1.0, 3, 0, 2, 5, 1] if dt != "bool" else [1.0, 1, 0, 0, 1, 1]
+        if dt in ("uint8", "int8"):
+            vals = [100.0, 120, 0, 90, 127, 1]          # sums of neighbours exceed the range of the narrow type
         case_deconv1d(ctx, cuqi, T, B1, B2, dict(dim=6, psf=("arr", [1.0, 2.0, 1.0]), bc="periodic", phantom=("arr", vals), noise_type="gaussian", noise_std=0.25,
                                                 prior=("none", None), dtype=dt), nid())
         case_deconv1d(ctx, cuqi, T, B1, B2, dict(dim=6, psf=("arr", [0.0, 0, 1, 2, 1, 0]), bc="periodic", phantom=("arr", vals), noise_type="gaussian", noise_std=0.25,
                                                 prior=("none", None), dtype=dt, legacy=True), nid())
-        if dt != "bool":
+        if dt not in ("bool", "float16"):
             case_deconv2d(ctx, cuqi, T, B1, B2, dict(dim=3, psf=("arr", [[0.0, 1, 0], [1, 2, 1], [0, 1, 0]]), bc="zero", phantom=("arr", [float(i + 1) for i in range(9)]),
                                                     noise_type="gaussian", noise_std=0.25, prior=("none", None), dtype=dt), nid())
             case_poisson(ctx, cuqi, B1, B2, dict(dim=4, endpoint=1, field=("none",), SNR=50, obs="none", source="const", exactSolution=[1.0, 2, 1, 3], dtype=dt), nid())
             case_heat(ctx, cuqi, B1, B2, dict(dim=4, endpoint=1, max_time=0.05, field=("none",), SNR=50, obs="none", exactSolution=[0.0, 1, 0, 2], dtype=dt), nid())
     for dopt in (("iarr", [0]), ("iarr", [3]), ("f32", 3.5), ("0d", 0.0), ("0d", -2.0)):
         case_wang(ctx, cuqi, B1, B2, dict(noise_std=0.5, data=dopt, prior="none"), nid())
+
+    # ---- legacy form with a narrow-integer custom PSF: the Toeplitz matrix keeps the PSF's dtype and A @ x wraps (known finding)
+    for dt in ("uint8", "int8"):
+        Pn = np.array([0, 0, 60, 100, 60, 0], dtype=dt); xn = np.array([100, 120, 0, 90, 127, 1], dtype=dt)
+        d_ = {"problem": "Deconvolution1D", "legacy": True, "dim": 6, "PSF dtype": dt, "phantom dtype": dt}
+        ctx.case("legacy-narrow-int-psf", d_)
+        with quiet():
+            try:
+                with scripted(61):
+                    ta = _D1n(dim=6, PSF=Pn, phantom=xn, use_legacy=True, noise_std=0.25)
+                with scripted(61):
+                    tb = _D1n(dim=6, PSF=Pn.astype(float), phantom=xn.astype(float), use_legacy=True, noise_std=0.25)
+                ya, yb = A1(ta.exactData), A1(tb.exactData)
+                fa = A1(ta.model.forward(xn.astype(float))); fb = A1(tb.model.forward(xn.astype(float)))
+            except Exception as e:
+                ctx.note(f"legacy narrow-int PSF raised: {repr(e)[:80]}")
+                continue
+        if not vrel(ya, yb, 1e-12):
+            ctx.fail("Deconvolution1D:legacy:narrow-int-psf:wraps", d_, list(yb), list(ya), "exactData computed in the PSF's narrow integer type wraps around")
+        if not vrel(fa, fb, 1e-12):
+            ctx.fail("Deconvolution1D:legacy:narrow-int-psf:forward", d_, list(fb), list(fa), "forward on float64 input differs for an integer-typed PSF")
 
     # ---- G4: extreme scales (no absolute tolerances in the comparisons of these quantities)
     for sc in (1e-12, 1e12):
@@ -1768,6 +1873,13 @@ def run(ctx):
     for (dim_, nm_, par_) in ((6, "gauss", None), (10, "Gauss", 3.0), (8, "sinc", None), (6, "prolate", 4.0), (12, "vonMises", None), (8, "vonmises", 2.0)):
         case_deconv1d(ctx, cuqi, T, B1, B2, dict(dim=dim_, psf=("name", nm_, par_, None), bc="periodic", phantom=("arr", [float((3 * i) % 7 - 2) for i in range(dim_)]),
                                                 noise_type="gaussian", noise_std=0.25, prior=("none", None), legacy=True), nid())
+    # ---- Defocus: integer radii (pixels exactly ON the circle), Pythagorean radii, generic radii, discs clipped by the array, 1-D and 2-D
+    for (dim_, size_, R_) in ((5, 7, 1), (5, 7, 2), (5, 9, 3), (5, 11, 4), (4, 13, 5), (5, 9, 2.5), (5, 9, 5 ** 0.5), (5, 9, 2 ** 0.5), (4, 6, 2), (4, 8, 3), (5, 5, 3), (3, 3, 1), (4, 21, 2.56)):
+        case_deconv2d(ctx, cuqi, T, B1, B2, dict(dim=dim_, psf=("name", "Defocus", R_, size_), bc=BC2[int(size_ + 2 * R_) % 5], phantom=("arr", [float((3 * i) % 7 - 2) for i in range(dim_ * dim_)]),
+                                                noise_type="gaussian", noise_std=0.25, prior=("none", None)), nid())
+    for (dim_, size_, R_) in ((8, 7, 1), (8, 7, 2), (9, None, 3), (10, None, None), (8, 6, 2), (12, 5, 1.5), (7, 9, 4), (8, 3, 1)):
+        case_deconv1d(ctx, cuqi, T, B1, B2, dict(dim=dim_, psf=("name", "Defocus", R_, size_), bc=BC1[dim_ % 5], phantom=("arr", [float((3 * i) % 7 - 2) for i in range(dim_)]),
+                                                noise_type="gaussian", noise_std=0.25, prior=("none", None)), nid())
     # ---- names that are substrings / superstrings of documented names must be refused (exact matching)
     for bad in (dict(psf=("name", "gaussian", None, 3)), dict(psf=("name", "gaus", None, 3)), dict(psf=("name", "moffatt", None, 3)), dict(bc="periodicx"), dict(bc="zer"),
                 dict(bc="reflected"), dict(noise_type="gauss"), dict(noise_type="scaled"), dict(noise_type="gaussians"), dict(phantom=("name", "sin", None)),
@@ -1891,7 +2003,7 @@ def run(ctx):
                                                     noise_type=("gaussian" if (k + len(bc)) % 2 else "scaledGaussian"), noise_std=0.25, prior=("none", None)), nid())
 
     # ---- generated: Deconvolution1D
-    for _ in range(70 * mult):
+    for _ in range(50 * mult):
         dim = rng.choice(dims1)
         cfg = dict(dim=dim, psf=gen_psf1(rng, dim), bc=rng.choice(BC1 + ["Periodic", "ZERO", "Mirror", "Reflect", "Nearest"]), phantom=gen_phantom1(rng, dim),
                    noise_type=rng.choice(["gaussian", "Gaussian", "scaledGaussian", "scaledgaussian", "GAUSSIAN"]), noise_std=rng.choice([0.01, 0.5, 0.125, 1.0, 0.05, 4.0]),
@@ -1926,7 +2038,7 @@ def run(ctx):
     fixed2.append(dict(dim=4, psf=("arr", [[1.0]]), bc="zero", phantom=("arr", [1.0] * 16), noise_type="laplace", noise_std=0.5, prior=("none", None)))
     for c in fixed2:
         case_deconv2d(ctx, cuqi, T, B1, B2, c, nid())
-    for _ in range(36 * mult):
+    for _ in range(28 * mult):
         dim = rng.choice([3, 4, 4, 5] + ([6] if thorough else []))
         ph = ("arr", [float(rng.randint(0, 5) + (1 if rng.random() < 0.7 else 0)) for _ in range(dim * dim)]) if rng.random() < 0.85 else ("name", rng.choice(["cookie", "satellite", "camera"]))
         k, pr = make_prior(cuqi, rng, dim * dim, geometry=Image2D((dim, dim)))
